@@ -41,7 +41,7 @@ def sources(pid, tier, seed, rundir, mcres):
     out = []
     mix = [R("engine", 120, 25, 1), R("liq", 120, 30, 2), R("fluct", 40, 25, 3), R("multi", 30, 25, 4), R("gates", 40, 30, 8)]
     if pid == "C01":
-        out = [R("vamm", 600, 30, 1), R("engine", 80, 25, 2), R("liq", 60, 30, 3)]
+        out = [R("vamm", 600, 30, 1), R("engine", 80, 25, 2), R("liq", 60, 30, 3), R("gates", 80, 30, 4)]
     elif pid in ("C02", "C03", "C04", "C05", "C10", "C12"):
         out = mix + [R("engine-native", 60, 25, 5), R("caps", 30, 25, 6)] + ([R("liqwin", 80, 25, 7)] if pid in ("C02", "C03") else [])
     elif pid == "C07":
@@ -67,7 +67,7 @@ def sources(pid, tier, seed, rundir, mcres):
     elif pid == "C17":
         out = [R("vamm", 500, 30, 1), R("engine", 80, 25, 2)]
     elif pid == "C18":
-        out = [R("vamm", 200, 30, 1), R("feed", 200, 30, 2), R("engine", 40, 25, 3)]
+        out = [R("vamm", 200, 30, 1), R("feed", 200, 30, 2), R("engine", 40, 25, 3), R("gates", 60, 30, 4)]
     elif pid == "C20":
         out = [R("caps", 200, 25, 1), R("engine", 40, 25, 2), R("gates", 80, 30, 3)]
     # static / generated scenario files
